@@ -35,7 +35,7 @@ def required_buckets(tier):
             req.append(f'C14/quantity/{p or "-"}{b}')
     req += ['C14/quantity/-U', 'C14/conc/table', 'C14/conc/percent/v/v', 'C14/conc/percent/w/w', 'C14/conc/percent/w/v',
             'C14/conc/M', 'C14/conc/m', 'C14/conc/denominator_value', 'C14/api/container', 'C14/api/transfer',
-            'C14/api/fill_to', 'C14/api/create_solution', 'C14/api/capacity', 'C14/api/dilute']
+            'C14/api/fill_to', 'C14/api/create_solution', 'C14/api/create_solution_multi', 'C14/api/capacity', 'C14/api/dilute']
     for fam in ('missing_space', 'double_space', 'leading_space', 'trailing_space', 'unknown_unit', 'unknown_prefix',
                 'wrong_case', 'missing_number', 'non_numeric', 'extra_tokens', 'empty', 'wrong_dimension'):
         req.append(f'C14/malformed/{fam}')
@@ -298,6 +298,37 @@ def api(rng, case, idx):
                 gd = [r for s, r in dils if not isinstance(r, Exception)]
                 if (0 < len(gd) < len(dils)) or any(same(gd[0], g, 50.0) for g in gd[1:]):
                     M.violate(['C14'], 'PARSE', 'C14:equivalent_concentrations_dilute_differently', {'spellings': [s for s, r in dils]})
+        # ---- several solutes, each with its own spelling (different numerators, denominators, molar / molal / percent):
+        #      every string must mean what it says in the solution that is built (SOLN monitor) and equivalent lists agree
+        if len(solids) >= 1:
+            s1 = solids[0]
+            s2 = solids[1] if len(solids) > 1 else pp.Substance.solid('KCl', 74.55)
+            for trial in range(6):
+                c1, c2 = rng.uniform(0.01, 0.3), rng.uniform(0.01, 0.3)
+                forms1 = [f'{c1!r} M', f'{c1!r} mol/L', f'{c1 * 1e3!r} mmol/L', f'{c1!r} mmol/mL']
+                forms2 = [f'{c2!r} m', f'{c2!r} mol/kg', f'{c2 * 10!r} mmol/10 g', f'{c2 * 1e3!r} umol/g']
+                forms3 = [f'{c2 * 5!r} %w/w', f'{c2 * 5 / 100!r} g/g', f'{c2 * 50!r} mg/g']
+                forms4 = [f'{c2 * 20!r} g/L', f'{c2 * 20!r} mg/mL', f'{c2 * 2!r} %w/v'] if R.cfg().wv_units == 'g/mL' else [f'{c2 * 20!r} g/L']
+                second = rng.choice([forms2, forms3, forms4])
+                outs = []
+                for _ in range(4):
+                    lst = [rng.choice(forms1), rng.choice(second)]
+                    if rng.random() < 0.5:
+                        lst, sol = [lst[1], lst[0]], [s2, s1]
+                    else:
+                        sol = [s1, s2]
+                    try:
+                        r_ = C.create_solution(sol, liq, 'x', concentration=lst, total_quantity='25 mL')
+                        outs.append((lst, {k.name: v for k, v in r_.contents.items()}))
+                    except Exception as e:   # noqa
+                        outs.append((lst, e))
+                M.count('PARSE.api_equivalence')
+                M.bucket('C14/api/create_solution_multi')
+                good = [o for l_, o in outs if not isinstance(o, Exception)]
+                differ = any(abs(g[k] - good[0][k]) > 1e-6 * abs(good[0][k]) + 1e-6 for g in good[1:] for k in good[0])
+                if (0 < len(good) < len(outs)) or differ:
+                    M.violate(['C14'], 'PARSE', 'C14:equivalent_concentration_lists_make_different_solutions',
+                              {'calls': [(l_, repr(o)[:120]) for l_, o in outs]})
         # ---- malformed strings at every entry point must raise
         src = C('s', initial_contents=[(liq, '2 L'), (solids[0], '10 g')])
         dst = C('d')
